@@ -15,7 +15,7 @@ Driver ops of C03 (policy typechecker):
 namespace CedarVerif.Ops
 open CedarVerif Cedar
 
-def decMode : Sexp → Option ValidationMode
+def decTyckMode : Sexp → Option ValidationMode
   | .atom "strict" => some .strict
   | .atom "permissive" => some .permissive
   | _ => none
@@ -46,7 +46,7 @@ def encEnv (e : RequestEnv) : String :=
 def handleTyck (x : Sexp) : Option String :=
   match x with
   | .list [.atom "tyck", s, m, .atom "all", .list [.atom "tpl", pu, ru], e] =>
-    match decSchema s, decMode m, decSlotUse pu, decSlotUse ru, decExpr e with
+    match decSchema s, decTyckMode m, decSlotUse pu, decSlotUse ru, decExpr e with
     | some s, some m, some pu, some ru, some e =>
       some (match checkPolicy m s pu ru e with
         | none => "(outside-model)"
@@ -56,7 +56,7 @@ def handleTyck (x : Sexp) : Option String :=
           "(tyck (envs" ++ String.join (entries.map (" " ++ ·)) ++ ") " ++ flag ++ ")")
     | _, _, _, _, _ => some "(bad-op)"
   | .list [.atom "tyck", s, m, .list [.atom "env", .str p, a, .str r, ps, rs], e] =>
-    match decSchema s, decMode m, decUid a, decSlotTy ps, decSlotTy rs, decExpr e with
+    match decSchema s, decTyckMode m, decUid a, decSlotTy ps, decSlotTy rs, decExpr e with
     | some s, some m, some a, some ps, some rs, some e =>
       some (match s.action? a with
         | none => "(bad-op)"
